@@ -238,7 +238,32 @@ def _desc_a(d, b):
 
 UNTRACE = [('kernpy.core.tokens', 'TokenCategoryHierarchyMapper.valid')]
 
+# ------------------------------------------------------------------ C05.d first call of an interpreter, then the observed exports
+FRESH_REQ = [{'no signifiers': {'exclude': ['DECORATION'], 'encoding': 'eKern'}, 'notes and barlines': {'include': ['NOTE_REST', 'BARLINES', 'HEADER', 'SPINE_OPERATION'], 'encoding': 'eKern'}, 'identity': {'encoding': 'eKern'}}, {'no pitches': {'exclude': ['PITCH'], 'encoding': 'eKern'}, 'identity': {'encoding': 'eKern'}}]
+
+
+def ob_d(pre: int, d: int) -> bool:
+    from sv.ref import fresh
+    assume(0 <= pre < len(fresh.PRELUDES) and 0 <= d < 2)
+    return _d_body(choose(pre, len(fresh.PRELUDES)), choose(d, 2))
+
+
+@native
+def _d_body(pre, d):
+    from sv.ref import fresh, docs as _docs
+    P = _docs.pool()
+    D, other = (P[0], P[1]) if d == 0 else (P[1], P[0])
+    bad = fresh.mismatches(pre, D, other.text(), FRESH_REQ[d])
+    check(not bad, '; '.join(bad)[:1500])
+    return True
+
+
 OBLIGATIONS = [
+    Ob(id='C05.d', fn=ob_d, title='histories from the first call of a fresh interpreter: category-filtered exports still remove exactly the unselected material',
+       shard_of=lambda pre, d: pre, shards={'quick': 5, 'thorough': 5}, budget_s={'quick': 150, 'thorough': 600}, native_body=True,
+       witnesses=[{'pre': 0, 'd': 0}], min_confirmed=15, enumerated='first call (10 kinds, incl. none), document (2)',
+       realized_at=['fresh python interpreter per history (subprocess)'],
+       bounds={'quick': '10 first calls x 2 pool documents (kern + text with chord / decorations / accidentals; kern + dynam + harm)', 'thorough': 'same'}),
     Ob(id='C05.c', fn=ob_c, title='pool documents (split/join, chords, comments, all spine types) under every selection within a category group',
        shard_of=lambda d, g, *bits: d + 6 * g, shards={'quick': 18, 'thorough': 18}, budget_s={'quick': 170, 'thorough': 1800}, untrace=UNTRACE,
        witnesses=[{'d': 0, 'g': 0, 'b0': True, 'b1': False, 'b2': True, 'b3': True, 'b4': False, 'b5': True, 'b6': True, 'b7': True}], min_confirmed=300,
